@@ -517,6 +517,10 @@ def tfrec_tables(ctx: Context):
                                 isinstance(x, (ast.Compare, ast.Call)) and
                                 x is not atom and ev.mentions(x)
                                 for x in ast.walk(atom)) and \
+                            {x.id for x in ast.walk(atom)
+                             if isinstance(x, ast.Name)} <= (
+                                 {subject.split(".")[0], "np", "numpy"} |
+                                 set(mod.globals)) and \
                             ev.ev(atom) is dtypeval.UNKNOWN:
                         undecided.append(f"{to.loc(atom)}: "
                                          f"{short(atom, 60)} for {d!r}")
